@@ -178,9 +178,12 @@ package bscript
 //@ func bscript.DecodeBIP276
 //@   bytes token
 //@   ensures[C17.decode_result] (= (= err nil) (not (nil? r0)))
+//@ func bscript.DecodeBIP276
+//@   define (= (= err nil) (bip276_ok (bstr text)))
 //@ func bscript.ValidateAddress
 //@   bytes token
 //@   ensures[C17.validate_result] (=> r0 (= r1 nil))
+//@   ensures[C17.validate_iff_decodes] (=> (has_prefix (bstr address) (bstr "bitcoin-script:")) (= r0 (bip276_ok (bstr address))))
 
 // ---- C04 (partial): the P2PKH unlocking script ----
 //@ func bscript.(*Script).AppendPushDataArray
